@@ -137,9 +137,10 @@ def volume(b, v, tier):
         k = rng.choice(kinds)
         distinct.append((k, pool.line(k, rng.randrange(64), 3000000 + i), 3000000 + i))
     # object lines just below the 64 KiB scanner limit
-    for j, pad in enumerate((60000, 65000, 65300)):
+    # ... and lines whose length is an exact multiple of the usual buffer sizes (4096, 8192, 65536/2 ...), one byte less (CRLF) and one more
+    for j, pad in enumerate((60000, 65000, 65300, 4095, 4096, 4097, 8191, 8192, 12288, 16384, 32768, 61440)):
         base = pool.obj_line("cmd", j, 3100000 + j)
-        room = pad - len(base.encode("utf-8"))
+        room = pad - len(base.encode("utf-8")) - 9          # the finished line is exactly `pad` bytes long
         distinct.append(("cmd", base[:-1] + ',"pad":"' + "p" * max(1, room) + '"}', 3100000 + j))
     cfgs = sl.stream_cfgs("basic")
     singles = sl.Singles(b, wd)
@@ -199,8 +200,7 @@ def run(tier):
     _G.update(b=b, pool=sl.Pool(v.seed), cfgs=sl.stream_cfgs("basic" if tier == "quick" else "full"), tier=tier, seed=v.seed,
               variants=2 if tier == "quick" else 3)
     chunks = [(i, c) for i, c in enumerate(common.chunks(allrecs, 40))]
-    with multiprocessing.get_context("fork").Pool(common.NCPU) as p:
-        results = p.map(work, chunks, chunksize=1)
+    results = common.pool_map(work, chunks)
     traces, owners = [], []
     ntexts = 0
     for r in results:
